@@ -293,8 +293,14 @@ def check_pwdline(case, ev):
     parts, at = [], {}
     for i, t in enumerate(tpl.split(" ")):
         if t.startswith("{a}"):
-            sp = G.v4_canon(next(it)) + t[3:]
+            n = next(it)
+            sp = G.v4_canon(n) + t[3:]
             at[i] = sp
+            if not any(G.in_net(n, c) for c in cfg.get("networks") or []):
+                m = G.mk4(cfg).anonymize(n)
+                if G.is_mask(m):
+                    # a mask-shaped image is left alone by the undo pass, as in the file-level check
+                    at[i] = G.v4_canon(m) + t[3:]
             parts.append(sp)
         elif t == "{m}":
             at[i] = G.v4_canon(case["mask"])
